@@ -22,7 +22,13 @@ func (inv *Invoice) GetExtensions() []tax.Extensions {
 	}
 	if inv.Totals != nil && inv.Totals.Taxes != nil {
 		for _, cat := range inv.Totals.Taxes.Categories {
+			if cat == nil {
+				continue
+			}
 			for _, rate := range cat.Rates {
+				if rate == nil {
+					continue
+				}
 				exts = append(exts, rate.Ext)
 			}
 		}
